@@ -217,6 +217,7 @@ def flow_programs(tier):
                 out.append(('flow|variant|' + lab, 'union WU%s(x: %s, y: int) let vu%s = WU%s::x(%s)!:x;' % (i, r, i, i, W), [('vu' + i, R)]))
                 out.append(('flow|return|' + lab, 'fn fr%s()->%s{ %s } let vr%s = fr%s();' % (i, r, W, i, i), [('vr' + i, R)]))
                 out.append(('flow|default|' + lab, 'fn fd%s(x: %s ?= %s)->%s{ x } let vd%s = fd%s();' % (i, r, W, r, i, i), [('vd' + i, R)]))
+                out.append(('flow|lambda-default|' + lab, 'let ld%s = (x: %s ?= %s)->{ x }; let vld%s = ld%s();' % (i, r, W, i, i), [('vld' + i, R)]))
                 out.append(('flow|lambda-return|' + lab, 'let vl%s: ()->(%s) = ()->{ %s }; let vlr%s = vl%s();' % (i, r, W, i, i), [('vlr' + i, R)]))
                 out.append(('flow|in-seq|' + lab, 'let vq%s: Sequence<%s> = [%s];' % (i, r, W), [('vq' + i, nat('Sequence', R))]))
                 if writable(S) and not (isinstance(S, tuple) and S[0] == 'named'):
@@ -602,7 +603,7 @@ def run(tier):
     rep = Report(PROP, tier, 'exploration',
                  'every program is offered to the compiler; each one the compiler accepts is instantiated, every binding read with its static '
                  'type (hook), checked for conformance and consumed by a type-directed eliminator. A: (required, supplied) matrix of C04 '
-                 '(depth 1 quick / 2 thorough) flowing through 10 positions; B: generic calls with argument-returning bodies, inferred-type '
+                 '(depth 1 quick / 2 thorough) flowing through 11 positions; B: generic calls with argument-returning bodies, inferred-type '
                  'forms, calls through function values, compound construction; C: every static library overload on type-directed pools '
                  '(arity<=3), without limits and under tight limits; D: compiling single-token mutants of shipped scripts / book examples, '
                  'instantiated and main run under limits; E: pairs of callable values with different arity windows (named functions and lambdas with optional parameters, callable parameters) meeting in array / if / generic / optional / tuple positions, the selected one called with 0..3 arguments against the value its definition gives; oracle: no panic / abort / hang / internal error, value shape = static type')
